@@ -35,7 +35,7 @@ LEVEL_TEXT = "Seeded exploration of UI action histories with saves and session r
 
 def generate(r, tier):
     big = tier == "thorough"
-    prog = kgen.gen_program(r, lo=3, hi=16 if big else 11)
+    prog = kgen.gen_menu_program(r) if r.random() < 0.1 else kgen.gen_program(r, lo=3, hi=16 if big else 11)
     sc = {"prog": prog, "parser": kgen.pick_parser(r, prog, 0.04), "hash_salt": r.getrandbits(32), "policy": r.choice([None, None, "kconfig", "sdkconfig"])}
     olds = []
     sc["renames"] = None
